@@ -66,6 +66,11 @@ func (t *Ticker) run() {
 		case <-t.ctx.Done():
 			return
 		case <-ticker.C:
+			// select picks randomly if the shutdown was signaled as well: the handler is not executed after a shutdown
+			if t.ctx.Err() != nil {
+				return
+			}
+
 			t.handler()
 		}
 	}
